@@ -1,7 +1,24 @@
-(* Properties_C12.v -- placeholder until FsModel lands. *)
-From LCDB Require Import Base LogFormat LogFormatClosed.
-Theorem C12_log_cut_is_record_prefix : forall rs n,
+(* Properties_C12.v -- C12: I/O failures are reported and never cost acknowledged data.
+   At record level a failed call is a call whose acknowledgement is [EAck id false] (rule R7 of
+   wf_protocol: a call is acknowledged OK iff its record was appended; since fix cf9b327 a failed
+   append latches the error, so nothing is appended behind a torn record).  The durability of what
+   WAS acknowledged, after a kill at any point or a clean close, is then the process-crash theorem;
+   the cut lemma covers a partially written final record.  That real runs under injected faults
+   behave like this is established by the fault-injection tie (checks/c12.py), not by proof. *)
+From LCDB Require Import Base LogFormat LogFormatClosed FsModel FsProofs.
+
+Theorem C12_partial_append_is_a_clean_cut : forall rs n,
   Forall (fun r => wf_bytes r = true) rs -> (n <= length (write_log rs))%nat ->
   exists k, read_log (firstn n (write_log rs)) = map Rec (firstn k rs).
 Proof. exact read_cut_prefix. Qed.
-Print Assumptions C12_log_cut_is_record_prefix.
+Print Assumptions C12_partial_append_is_a_clean_cut.
+
+Theorem C12_acknowledged_survive_kill_or_close : forall tr, wf_protocol tr = true -> forall p,
+  iget (written_image (firstn p tr)) FCurrent <> None ->
+  exists s old, recover (written_image (firstn p tr)) = Some s /\
+    Forall (fun b => flushed (firstn p tr) b /\
+                     exists n, In b (log_batches (firstn p tr) n) /\ n < r_log s) old /\
+    (old ++ applied_batches s = acked_before tr p \/
+     exists b, in_flight tr p b /\ old ++ applied_batches s = acked_before tr p ++ [b]).
+Proof. exact FsProofs.C03_process_crash. Qed.
+Print Assumptions C12_acknowledged_survive_kill_or_close.
